@@ -250,6 +250,14 @@ impl PoolMap {
         let mut removed_ids = vec![id.to_owned()];
         removed_ids.extend(self.calc_descendants(id));
 
+        // the ancestors that stay in the pool lose these descendants; this has to happen while the
+        // links are still in place, `remove_entry` will not find the ancestors any more
+        for id in &removed_ids {
+            if let Some(entry) = self.get_by_id(id).map(|e| e.inner.clone()) {
+                self.update_ancestors_index_key(&entry, EntryOp::Remove);
+            }
+        }
+
         // update links state for remove, so that we won't update_descendants_index_key in remove_entry
         for id in &removed_ids {
             self.remove_entry_links(id);
